@@ -1,5 +1,7 @@
 import Driver.Common
 import Log4rsModel.Routing.Builder
+import Log4rsModel.Routing.Spec
+import Log4rsModel.Routing.LogRecord
 /-
 C13 driver.
 case   : rootLevel TAB appenders TAB rootRefs TAB loggers
@@ -8,7 +10,10 @@ case   : rootLevel TAB appenders TAB rootRefs TAB loggers
            loggers   = `,`-list of  name;level;additive;refs   with refs a `|`-list of names
 observation (one field, blank-separated key=value):
   strict=ok|err  serrors=<errs>|-  errors=<errs>  lossy=<cfg>  install=ok|PANIC
-  strictcfg=<cfg>|-  strictinstall=ok|PANIC|-
+  strictcfg=<cfg>|-  strictinstall=ok|PANIC|-  deliv=<dl>|-  sdeliv=<dl>|-
+    dl   = `,`-list of target:level:ids — for the targets "", "zz", every logger name and every
+           logger name + "::x", at record levels 1 and 5: the identities (positions at which they were
+           handed to the builder) of the `Append` objects called by `Log::log`, in call order (`|`-list)
     errs = `,`-list of kind:name (kind ∈ da ne dl il), in reported order
     cfg  = apps/root/loggers, apps = `,`-list of name:id, root = level;refs, loggers as in the case
 -/
@@ -63,17 +68,55 @@ def renderInstall (cfg : Config) : String :=
   | .ok _ => "ok"
   | _ => "PANIC"
 
+/-- the probe targets of the harness -/
+def targetsOf (inp : BuilderInput) : List Name :=
+  [[], "zz".toList] ++ inp.loggers.flatMap fun l => [l.name, l.name ++ "::x".toList]
+
+def idOfName (kept : List AppenderDecl) (n : Name) : String :=
+  match kept.find? (·.name = n) with
+  | some a => toString a.id
+  | none => "?"
+
+def renderDeliv (rows : List (Name × Nat × List String)) : String :=
+  encList "," (rows.map fun r => encStr r.1 ++ ":" ++ toString r.2.1 ++ ":" ++ encList "|" r.2.2)
+
+/-- MODEL: the whole `Logger::new` + `Log::log` on a configuration — the tree of C01's model
+(`Tree.build`, `find`), then the fan-out of C03's model over dummy appenders (no filters, never
+failing) with `appenders[idx]` an explicit panic (`logRecord`, Routing/LogRecord.lean). `none` = panic. -/
+def modelDeliv (cfg : Config) (kept : List AppenderDecl) (targets : List Name) : Option String :=
+  let table : List (AppenderG Nat) := kept.map fun _ => { chain := [], result := fun _ => .ok }
+  let rows := targets.flatMap fun t => [1, 5].map fun lvl =>
+    (t, lvl, match logRecord cfg table .default t id lvl with
+      | some (.returned tr) => some (tr.filterMap fun (e : Event) => match e with
+          | Event.append i => some (match kept[i]? with | some a => toString a.id | none => "?")
+          | _ => none)
+      | _ => none)
+  if rows.any (·.2.2.isNone) then none
+  else some (renderDeliv (rows.map fun r => (r.1, r.2.1, r.2.2.getD [])))
+
+/-- SPEC: who must receive a record, from the statement of C01 applied to the valid part
+(`Tree.specDeliver`: effective logger by longest component prefix, its chain of attachments) -/
+def specDeliv (cfg : Config) (kept : List AppenderDecl) (targets : List Name) : String :=
+  renderDeliv (targets.flatMap fun t => [1, 5].map fun lvl =>
+    (t, lvl, (Tree.specDeliver cfg t lvl).map (idOfName kept)))
+
 def modelObs (inp : BuilderInput) : String :=
   let r := buildLossy inp
   let strictOk := isOk (build inp)
+  let deliv := modelDeliv r.config r.kept (targetsOf inp)
+  let inst := match install r.config, deliv with
+    | .ok _, some _ => "ok"
+    | _, _ => "PANIC"
   " ".intercalate [
     "strict=" ++ (if strictOk then "ok" else "err"),
     "serrors=" ++ (if strictOk then "-" else renderErrs r.errors),
     "errors=" ++ renderErrs r.errors,
     "lossy=" ++ renderCfg r.config r.kept,
-    "install=" ++ renderInstall r.config,
+    "install=" ++ inst,
     "strictcfg=" ++ (if strictOk then renderCfg r.config r.kept else "-"),
-    "strictinstall=" ++ (if strictOk then renderInstall r.config else "-")]
+    "strictinstall=" ++ (if strictOk then inst else "-"),
+    "deliv=" ++ deliv.getD "-",
+    "sdeliv=" ++ (if strictOk then deliv.getD "-" else "-")]
 
 def lookupKey (kvs : List (String × String)) (k : String) : Option String :=
   (kvs.find? (·.1 = k)).map (·.2)
@@ -86,12 +129,18 @@ def parseObs (s : String) : List (String × String) :=
 
 def subsetOf (xs ys : List CfgError) : Bool := xs.all (ys.contains ·)
 
+/-- same errors with the same multiplicities, in any order (the statement fixes no order; the order
+the code happens to use is compared by the correspondence check) -/
+def sameMultiset (xs ys : List CfgError) : Bool :=
+  xs.length == ys.length && (xs ++ ys).all fun e => xs.count e == ys.count e
+
 /-- the statement, clause by clause, evaluated on what the real code did -/
 def specVerdict (inp : BuilderInput) (obs : String) : Option String :=
   let kv := parseObs obs
   match lookupKey kv "strict", lookupKey kv "serrors", lookupKey kv "errors", lookupKey kv "lossy",
-        lookupKey kv "install", lookupKey kv "strictcfg", lookupKey kv "strictinstall" with
-  | some strict, some serrors, some errors, some lossy, some inst, some scfg, some sinst =>
+        lookupKey kv "install", lookupKey kv "strictcfg", lookupKey kv "strictinstall",
+        lookupKey kv "deliv", lookupKey kv "sdeliv" with
+  | some strict, some serrors, some errors, some lossy, some inst, some scfg, some sinst, some deliv, some sdeliv =>
     let wf := wellFormedB inp
     let want := specErrors inp
     let sl := specLossy inp
@@ -102,15 +151,20 @@ def specVerdict (inp : BuilderInput) (obs : String) : Option String :=
         else if !subsetOf want es then some "lossy-offending-item-not-reported"
         else if !wf && !subsetOf ses want then some "strict-error-names-innocent-item"
         else if !wf && !subsetOf want ses then some "strict-offending-item-not-reported"
+        else if !sameMultiset es want then some "lossy-error-multiplicity"
+        else if !wf && !sameMultiset ses es then some "strict-errors-differ-from-lossy-errors"
         else if wf && serrors != "-" then some "strict-ok-with-errors"
         else if lossy != renderCfg sl.1 sl.2 then some "lossy-not-exactly-valid-part"
         else if inst != "ok" then some "lossy-config-install-panics"
         else if wf && scfg != renderCfg inp.toConfig inp.appenders then some "strict-config-not-the-input"
         else if wf && sinst != "ok" then some "strict-config-install-panics"
-        else if !wf && (scfg != "-" || sinst != "-") then some "strict-err-with-config"
+        else if !wf && (scfg != "-" || sinst != "-" || sdeliv != "-") then some "strict-err-with-config"
+        else if deliv != specDeliv sl.1 sl.2 (targetsOf inp) then some "deliveries-after-lossy-build-differ"
+        else if wf && sdeliv != specDeliv inp.toConfig inp.appenders (targetsOf inp) then
+          some "deliveries-after-strict-build-differ"
         else none
       | _, _ => some "unreadable-errors"
-  | _, _, _, _, _, _, _ => some "unreadable-observation"
+  | _, _, _, _, _, _, _, _, _ => some "unreadable-observation"
 
 def tagsOf (inp : BuilderInput) : List String :=
   let es := specErrors inp
@@ -128,6 +182,21 @@ def tagsOf (inp : BuilderInput) : List String :=
     ++ (if droppedWithDangling then ["dropped-logger-dangling-silent"] else [])
     ++ (if leadPair then ["leading-pair-accepted"] else [])
     ++ (if inp.loggers.any (fun l => l.name.contains ':') then ["colon-name"] else [])
+    ++ (if inp.loggers.any (fun l => (declared inp).contains l.name) then ["name-collision"] else [])
+    ++ (if (inp.rootAppenders :: inp.loggers.map (·.appenders)).any (fun refs =>
+          (refs.zip (refs.drop 1)).any fun p => !(declared inp).contains p.1 && !(declared inp).contains p.2)
+        then ["consecutive-dangling"] else [])
+    ++ (if inp.loggers.any (fun l => !l.additive && !(dangling inp l.appenders).isEmpty) then ["nonadditive-dangling"] else [])
+    ++ (if (withEarlier inp.loggers).any (fun p => repeats (·.name) p && !specName p.2.name) then ["dup-of-invalid"] else [])
+    ++ (if (declared inp ++ inp.loggers.map (·.name)).any (fun n => n.any (fun c => c.toNat ≥ 128)) then ["non-ascii"] else [])
+    ++ (if (declared inp).contains [] then ["empty-appender-name"] else [])
+    ++ (if (declared inp).any (fun n => (declared inp).count n ≥ 3) || inp.loggers.any (fun l => (inp.loggers.map (·.name)).count l.name ≥ 3)
+        then ["triple-dup"] else [])
+    ++ (if (inp.rootAppenders :: inp.loggers.map (·.appenders)).any (fun refs => !refs.Nodup) then ["repeated-ref"] else [])
+    ++ (if (inp.rootAppenders ++ inp.loggers.flatMap (·.appenders)).any (fun r => (declared inp).count r ≥ 2)
+        then ["ref-to-duplicated-appender"] else [])
+    ++ (if !(specLossy inp).1.loggers.isEmpty && (specLossy inp).1.loggers.any (fun l => !l.appenders.isEmpty)
+        then ["delivery-through-named-logger"] else [])
   if inp.appenders.isEmpty && inp.loggers.isEmpty && inp.rootAppenders.isEmpty then "trivial" :: t else t
 
 def handle : Handler := fun cas obs =>
